@@ -726,3 +726,122 @@ def list_program(rng):
             forms.append(rng.choice([app("car", quote(NIL)), app("cdr", lit(5)), app("list-ref", quote(vlist([vint(1)])), lit(3)), app("cadr", quote(vlist([vint(1)]))),
                                      app("list-tail", quote(vlist([vint(1), vint(2)])), lit(3)), app("last-pair", quote(NIL)), app("apply", var("car"), lit(5))]))
     return forms
+
+
+# ---- C06 / C16: datum trees and layouts --------------------------------------------------------
+IDENTS = ["a", "b", "foo", "+", "-", "...", "->x", "a.b", "set!", "x1", "<=?", "!$%&*/:<=>?^_~", "|hello world|", "||", "|(|", "list->vector", "-x", "+a", ".a", "..."]
+REALS = ["1.5", "-0.25", "1e3", "1.5e-3", "2.", "0.1", "-12.75", "3.4e38", "1e-40", "100.0", "6.02e23", "0.0", "-0.0", "1e10"]
+
+
+def datum_tree(rng, depth):
+    """tree of tokens: ("atom", text, want) | ("list", [trees], tail or None) | ("vec", [trees]) | ("quote", tree)"""
+    if depth <= 0 or rng.random() < 0.35:
+        k = rng.random()
+        if k < 0.2:
+            s = rng.choice(IDENTS)
+            name = s[1:-1] if s.startswith("|") else s
+            return ("atom", s, {"t": "sym", "cs": [ord(c) for c in name]})
+        if k < 0.4:
+            n = rng.choice([rng.randint(-99, 99), rng.randint(-2**31, 2**31 - 1), 0, 2147483647, -2147483648])
+            txt = ("+" if n >= 0 and rng.random() < 0.2 else "") + str(n)
+            return ("atom", txt, {"t": "int", "v": n})
+        if k < 0.5:
+            n, d = rng.randint(-99, 99), rng.randint(1, 99)
+            return ("atom", "%d/%d" % (n, d), {"t": "rat", "n": n, "d": d})
+        if k < 0.6:
+            s = rng.choice(REALS)
+            return ("atom", s, {"t": "realtext", "cs": [ord(c) for c in s]})
+        if k < 0.7:
+            b = rng.random() < 0.5
+            return ("atom", "#t" if b else "#f", {"t": "bool", "b": b})
+        if k < 0.8:
+            c = rng.choice("aZ0(); #\\\"'|.")
+            return ("atom", "#\\" + c, {"t": "char", "c": ord(c)})
+        if k < 0.92:
+            raw = "".join(rng.choice(["a", "b", " ", "(", ";", "|", "\\n", "\\t", "\\\"", "\\\\", "\\a", "\\|", "1", "'"]) for _ in range(rng.randint(0, 6)))
+            val = raw.replace("\\n", "\n").replace("\\t", "\t").replace("\\\"", "\"").replace("\\a", "\x07").replace("\\|", "|").replace("\\\\", "\\")
+            # (sequential replace is safe here: the pieces are drawn one by one, see below)
+            pieces = []
+            val = ""
+            txt = ""
+            for _ in range(rng.randint(0, 6)):
+                t, v = rng.choice([("a", "a"), ("b", "b"), (" ", " "), ("(", "("), (";", ";"), ("|", "|"), ("\\n", "\n"), ("\\t", "\t"),
+                                   ("\\\"", "\""), ("\\\\", "\\"), ("\\a", "\x07"), ("\\|", "|"), ("1", "1"), ("'", "'"), ("\\r", "\r"), ("\\b", "\x08")])
+                txt += t; val += v
+            return ("atom", '"' + txt + '"', {"t": "str", "cs": [ord(c) for c in val]})
+        return ("list", [], None)
+    k = rng.random()
+    n = rng.randint(0, 4)
+    kids = [datum_tree(rng, depth - 1) for _ in range(n)]
+    if k < 0.6:
+        tail = datum_tree(rng, 0) if (kids and rng.random() < 0.2) else None
+        if tail is not None and tail[0] == "list":
+            tail = None
+        return ("list", kids, tail)
+    if k < 0.8:
+        return ("vec", kids)
+    return ("quote", datum_tree(rng, depth - 1))
+
+
+def want_of(t):
+    if t[0] == "atom":
+        return t[2]
+    if t[0] == "list":
+        r = want_of(t[2]) if t[2] is not None else {"t": "nil"}
+        for x in reversed(t[1]):
+            r = {"t": "pair", "a": want_of(x), "d": r}
+        return r
+    if t[0] == "vec":
+        return {"t": "vec", "xs": [want_of(x) for x in t[1]]}
+    q = {"t": "sym", "cs": [ord(c) for c in "quote"]}
+    return {"t": "pair", "a": q, "d": {"t": "pair", "a": want_of(t[1]), "d": {"t": "nil"}}}
+
+
+def tokens_of(t):
+    if t[0] == "atom":
+        return [t[1]]
+    if t[0] == "list":
+        out = ["("]
+        for x in t[1]:
+            out += tokens_of(x)
+        if t[2] is not None:
+            out += ["."] + tokens_of(t[2])
+        return out + [")"]
+    if t[0] == "vec":
+        out = ["#("]
+        for x in t[1]:
+            out += tokens_of(x)
+        return out + [")"]
+    return ["'"] + tokens_of(t[1])
+
+
+DELIMS = set(" \t\n\r()\";|")
+
+
+def needs_separator(a, b):
+    """may the two token spellings be written without anything between them?"""
+    if a in ("'", "#(", "("):
+        return False
+    if a[-1] in '")|' and not (a.startswith("#\\") and len(a) == 3):
+        return False if b[0] in DELIMS or True else True      # a closing delimiter character ends the token
+    if b[0] in DELIMS:
+        return False
+    return True
+
+
+def render_layout(rng, tree):
+    toks = tokens_of(tree)
+    out = []
+    for i, tk in enumerate(toks):
+        if i > 0:
+            need = needs_separator(toks[i - 1], tk)
+            r = rng.random()
+            if not need and r < 0.5:
+                sep = ""
+            else:
+                sep = rng.choice([" ", " ", "  ", "\t", "\n", "\r\n", " ; comment (\n", "\n\n  ", ";;\n"])
+            out.append(sep)
+        out.append(tk)
+    lead = rng.choice(["", "", " ", "\n", "; c\n"])
+    trail = rng.choice(["", "", " ", "\n", " ; end"])
+    return lead + "".join(out) + trail
